@@ -72,6 +72,20 @@ def gen_plan(rng, i: int, tier: str) -> dict:
             # lockstep at the world's seams (so that the stores of the threads fall together) plus line-level pre-emption in between
             plan["threads"] = {"mode": "marks", "q": r.choice((0.7, 0.9, 1.0)), "p": r.choice((0.02, 0.1, 0.3))} if r.random() < 0.7 else {"mode": "prob", "p": r.choice((0.05, 0.3))}
         return plan
+    if i % 25 == 3:
+        # the wall clock keeps moving (a few ticks per reading) and an interval boundary passes during cache-served protects; every blob
+        # must be one the reference can open, and the unprotects that follow (DC unreachable) must work from the same cache
+        r_ = random.Random(plan["seed"])
+        l1_, l2_ = r_.choice(((31, 31), (31, 31), (5, 31), (5, 7)))
+        bnd = gkdi.interval_start_filetime(l0, l1_, l2_) + B
+        tick = r_.choice((100, 100, 300, 900))
+        plan["clock_ft"] = bnd - r_.randrange(1, 14) * (tick // 100)
+        plan["clock_tick_ns"] = tick
+        plan["family"] = "moving-clock"
+        ops.append({"op": "load_key", "rk": 0})
+        for _ in range(r_.randint(2, 4)):
+            ops.append({"op": "protect", "fl": r_.choice(("sync", "async")), "net": "offline", "group": None, "sid": offline.SID_A, "rk": 0, "data": 6})
+        return plan
     if i % 25 == 18:
         # a ladder on one triple: fetch at a low position, hit it, fetch at a higher position, then positions in between and below
         # (whatever the cache remembers about its last answer, the newer, more covering material must serve them)
@@ -274,7 +288,8 @@ def judge(plan, tr: P.Trace):
                 if pt != ot.plaintext:
                     return common.violation("C10", "wrong-result", fl, "blob-plaintext", "", "", f"op {ot.idx} protect blob decrypts to other bytes"), probes
                 kid = p["key_identifier"]
-                if triple is not None and rki is not None and (kid["l0"], kid["l1"], kid["l2"]) != now and not any(g.get("mode") == "current" for g in ot.getkeys):
+                now_end = gkdi.interval_of_filetime(ot.clock_ft_end) if ot.clock_ft_end else now  # (the clock may move while the call runs)
+                if triple is not None and rki is not None and not (now <= (kid["l0"], kid["l1"], kid["l2"]) <= now_end) and not any(g.get("mode") == "current" for g in ot.getkeys):
                     return common.violation("C10", "wrong-result", fl, "blob-interval", "", "", f"op {ot.idx} cached protect names {(kid['l0'], kid['l1'], kid['l2'])} at {now}"), probes
             probes["ok_" + kind] = probes.get("ok_" + kind, 0) + 1
             if not fresh_ok:
@@ -323,7 +338,7 @@ class C10(common.Check):
     rule = ("case = plan of 2..10 operations on ONE shared KeyCache over {load_key, unprotect of a reference-made blob (2 root keys x 2 SIDs x "
             "current/previous L0 x positions incl. corners and DC-future), protect (root key id named or not), clock advance or step back, change of "
             "the caller's group membership, unprotect of a record whose tag bit is flipped followed later by the intact one}, plus long offline "
-            "histories over 17..24 L0 epochs, plus ladders on one triple (fetch low, hit, fetch higher, then positions in between), plus histories in which the DC found through DNS serves a first call and then goes away for good while another one takes over under another name (calls that need a DC must reach the new one, covered calls none), plus several L0 epochs of one (root key, SD) fetched at once by caller threads / async tasks and then used again, each offline or "
+            "histories over 17..24 L0 epochs, plus cache-served protects under a wall clock that moves with every reading while an interval boundary passes, plus ladders on one triple (fetch low, hit, fetch higher, then positions in between), plus histories in which the DC found through DNS serves a first call and then goes away for good while another one takes over under another name (calls that need a DC must reach the new one, covered calls none), plus several L0 epochs of one (root key, SD) fetched at once by caller threads / async tasks and then used again, each offline or "
             "online, sync or async; consecutive async operations of a group run concurrently under the PRNG scheduler (latencies up to 200 ms "
             "decide completion order; a caller may cancel its call at a PRNG-chosen virtual instant; connects slower than the 5 s timeout), PRNG "
             "segmentation. Oracle: termination within 300 KDF calls; outcome in the set a fresh cache (with the "
@@ -334,7 +349,7 @@ class C10(common.Check):
                   "security context": "stub (StubCtx)", "reference model": "analytic fresh-cache model + ref.cms/ref.gkdi"}
     assumptions = ["'fresh cache' = a new KeyCache holding the root keys loaded so far", "two overlapping operations may both fetch: RPC economy is judged only for operations invoked after the covering one returned (global event sequence numbers)"]
     required_fired = ("cache_hit_no_rpc", "cache_made_it_possible", "legit_failure", "concurrent_groups", "covered_op", "identity_change", "many_l0", "slowconn", "cancelled_by_caller",
-                      "thread_groups", "thread_overlap", "thread_obtained", "damaged_record", "epochs_at_once", "dc_failover", "ladder_histories")
+                      "thread_groups", "thread_overlap", "thread_obtained", "damaged_record", "epochs_at_once", "dc_failover", "ladder_histories", "moving_clock_histories")
 
     def cases(self, tier, seed):
         rng = prng.stream(seed, "C10")
@@ -355,6 +370,7 @@ class C10(common.Check):
         probes["epochs_at_once"] = int(case.get("family") == "epochs-at-once")
         probes["dc_failover"] = st.get("dc_failover", 0)
         probes["ladder_histories"] = int(case.get("family") == "ladder")
+        probes["moving_clock_histories"] = int(case.get("family") == "moving-clock")
         probes["thread_groups"] = sum(1 for g_, v in groups.items() if v > 1 and any(o.get("group") == g_ and o.get("fl") == "thread" for o in case["ops"]))
         probes["thread_overlap"] = st.get("toverlap", 0)
         sched = common.key_hash(tr.schedule)
